@@ -9,6 +9,8 @@ FOUNDATIONS = ['harness.foundation.filteriter']   # the models use the closed fo
 LEAN_TARGETS = ['Mahotas.Proofs.FilterIter']
 LEVEL = 'proof'
 RULE = ('corpus; exhaustive boolean scope (all 3x4 images x 3x3 elements, also 1xn/nx1/2x2; quick = seeded slice); '
+        'get_structuring_elem on rank 1-4 arrays: None, a grid of ints (negative, zero, translate_sizes keys, huge), arrays of '
+        'equal/other rank, zero-length axes, other dtypes/layouts; erode/dilate called with None/int arguments; '
         'random 1-3 D x 9 integer dtypes x 7 layouts x elements (odd/even, empty, larger than the image, non-flat, '
         'dtype-minimum entries) with values dense at the dtype limits. Non-trivial = result differs from the input '
         'or element is irregular; distinct = distinct (op,dtype,shape,data,element,layout).')
@@ -27,10 +29,21 @@ def _mk(case):
     return A, Bc
 
 
-def _line(case):
-    return (f"c01 kind={case['kind']} dt={gen.DT_NAME[case['dtype']]} shape={gen.enc_shape(case['shape'])} "
-            f"data={gen.enc_arr(case['data'])} "
-            f"bshape={gen.enc_shape(case['bshape'])} bc={gen.enc_arr(case['bc'])}")
+def _flags(A):
+    """the four facts PyArray_ISCARRAY looks at, as the driver's `flags=c,a,w,s`"""
+    fl = A.flags
+    return ','.join('1' if b else '0' for b in (fl.c_contiguous, fl.aligned, fl.writeable, A.dtype.isnative))
+
+
+def _line(case, flags=None):
+    head = (f"c01 kind={case['kind']} dt={gen.DT_NAME[case['dtype']]} shape={gen.enc_shape(case['shape'])} "
+            f"data={gen.enc_arr(case['data'])} ")
+    if 'pyarg' in case:
+        # the Python-level argument (None / int): the driver runs its own getStructuringElem
+        elem = 'arg=none' if case['pyarg'] == 'none' else f"arg=int v={int(case['pyarg'])}"
+    else:
+        elem = f"bshape={gen.enc_shape(case['bshape'])} bc={gen.enc_arr(case['bc'])}"
+    return head + elem + (f" flags={flags}" if flags is not None else '')
 
 
 def _path(A):
@@ -88,16 +101,28 @@ def _judge(case, got, drv, path, other=None):
         if o != g:
             out.append(dict(kind='property', key=f'path-independence:{kind}',
                             detail=dict(fast=g if path == 'fast' else o, generic=o if path == 'fast' else g)))
+    if 'dispatch' in drv and not out:
+        # tie of pathOf / erodeDispatch / dilateDispatch (C01_path_independent, C01_dispatch_eq_spec): the driver
+        # was told the flags of the array actually passed; it must choose the same path and return the same array
+        if drv.get('path') != path:
+            out.append(dict(kind='model', key='pathOf', detail=dict(driver=drv.get('path'), harness=path)))
+        d = core.ints(drv['dispatch'])
+        if d != g:
+            out.append(dict(kind='model', key=f'dispatch:{kind}:{path}', detail=dict(got=g, model=d, path=path)))
     return out
 
 
 def _eval_single(cases):
     res = []
-    lines = [_line(c) for c in cases]
-    drvs = core.drive(lines)
-    for case, drv in zip(cases, drvs):
+    prepared = []
+    for case in cases:
         A, Bc = _mk(case)
-        Al = gen.relayout(A, case.get('layout', 'C'))
+        if 'pyarg' in case:
+            Bc = None if case['pyarg'] == 'none' else int(case['pyarg'])
+        prepared.append((A, Bc, gen.relayout(A, case.get('layout', 'C'))))
+    lines = [_line(c, _flags(p[2])) for c, p in zip(cases, prepared)]
+    drvs = core.drive(lines)
+    for case, drv, (A, Bc, Al) in zip(cases, drvs, prepared):
         before = Al.copy()
         path = _path(Al)
         got = _call(case['kind'], Al, Bc)
@@ -115,10 +140,94 @@ def _eval_single(cases):
                         sig=lines[len(res)] + case.get('layout', 'C'),
                         tags=dict(kind=case['kind'], dtype=case['dtype'], ndim=len(case['shape']),
                                   layout=case.get('layout', 'C'), path=path,
-                                  elem=('empty' if not any(case['bc']) else 'larger' if any(
+                                  elem=('pyarg' if 'pyarg' in case else 'empty' if not any(case['bc']) else 'larger' if any(
                                       b > s for b, s in zip(case['bshape'], case['shape'])) else 'even' if any(
                                       b % 2 == 0 for b in case['bshape']) else 'odd'))))
     return res
+
+
+_BC_DTYPES = ['bool', 'uint8', 'int8', 'uint16', 'int32', 'int64', 'uint64']
+
+
+def _getse_line(case):
+    head = f"c01 kind=getse dt={gen.DT_NAME[case['dtype']]} ndim={case['ndim']} "
+    if case['arg'] == 'none':
+        return head + 'arg=none'
+    if case['arg'] == 'int':
+        return head + f"arg=int v={int(case['v'])}"
+    return head + f"arg=array bshape={gen.enc_shape(case['bshape'])} bc={gen.enc_arr(case['bc'])}"
+
+
+def _eval_getse(cases):
+    """tie of `getStructuringElem` (C01_get_structuring_elem_spec): the real `mahotas.morph.get_structuring_elem`
+    on an array of the stated rank and dtype against the driver's answer: shape, entries, dtype, contiguity, or
+    which ValueError is raised"""
+    from mahotas import morph
+    res = []
+    drvs = core.drive([_getse_line(c) for c in cases])
+    for case, drv in zip(cases, drvs):
+        A = np.zeros((2,) * case['ndim'], case['dtype'])
+        if case['arg'] == 'none':
+            Bc = None
+        elif case['arg'] == 'int':
+            Bc = int(case['v'])
+        else:
+            Bc = np.array(case['bc'], dtype=object).astype(case['bdtype']).reshape(case['bshape'])
+            Bc = gen.relayout(Bc, case.get('blayout', 'C')) if Bc.size and Bc.ndim else Bc   # (ascontiguousarray makes 0-d 1-d)
+        keep = None if not isinstance(Bc, np.ndarray) else Bc.copy()
+        try:
+            out = morph.get_structuring_elem(A, Bc)
+            got = dict(ok='1', bshape=list(out.shape), elem=[int(x) for x in out.ravel(order='C').tolist()])
+        except ValueError as e:
+            out = None
+            msg = str(e)
+            got = dict(error='rank' if 'number of dimensions' in msg else 'empty' if 'empty' in msg else msg[:80])
+        f = []
+        key = f"get_structuring_elem:{case['arg']}"
+        if 'error' in drv or 'error' in got:
+            if drv.get('error') != got.get('error'):
+                f.append(dict(kind='model', key=key + ':error', detail=dict(driver=drv, got=got)))
+        else:
+            want = dict(ok='1', bshape=core.ints(drv.get('bshape', '')), elem=core.ints(drv.get('elem', '')))
+            if want != got:
+                f.append(dict(kind='model', key=key, detail=dict(driver=want, got=got)))
+            elif out.dtype != A.dtype or not out.flags.c_contiguous:
+                # "This array will be of the same type as A, C-contiguous" (docstring of get_structuring_elem)
+                f.append(dict(kind='model', key=key + ':dtype-or-layout',
+                              detail=dict(dtype=str(out.dtype), c_contiguous=bool(out.flags.c_contiguous))))
+        if keep is not None and not np.array_equal(keep, Bc):
+            f.append(dict(kind='model', key=key + ':argument-modified', detail={}))
+        res.append(dict(findings=f, nontrivial=bool(case['arg'] != 'none'), sig=_getse_line(case) + case.get('bdtype', '') +
+                        case.get('blayout', ''),
+                        tags=dict(kind='getse', dtype=case['dtype'], ndim=case['ndim'], arg=case['arg'],
+                                  outcome=got.get('error', 'ok'))))
+    return res
+
+
+def _getse_cases(rng, tier):
+    """None and a grid of Python ints (negative, zero, the translate_sizes keys 4, 8, 6, larger than the rank, huge)
+    on arrays of rank 1..4; arrays of equal/different rank, with zero-length axes, of another dtype (cast) and layout"""
+    out = []
+    ints = list(range(-3, 11)) + [26, 27, 81, 2 ** 31, 2 ** 70, -2 ** 70]
+    for ndim in (1, 2, 3, 4):
+        for dtype in ('bool', 'uint8', 'int32') if tier != 'thorough' else gen.INT_DTYPES:
+            out.append(dict(kind='getse', dtype=dtype, ndim=ndim, arg='none'))
+            for v in ints:
+                out.append(dict(kind='getse', dtype=dtype, ndim=ndim, arg='int', v=v))
+    for _ in range(dict(quick=150, thorough=3000, search=600)[tier]):
+        ndim = rng.choice([1, 2, 3, 4])
+        dtype = rng.choice(gen.INT_DTYPES)
+        r = rng.random()
+        brank = ndim if r < 0.6 else rng.choice([k for k in range(0, 6) if k != ndim])
+        bshape = [rng.choice([0, 1, 2, 3, 3, 4]) if rng.random() < 0.35 else rng.choice([1, 2, 3]) for _ in range(brank)]
+        bdtype = dtype if rng.random() < 0.5 else rng.choice(_BC_DTYPES)
+        lo, hi = gen.dt_range(bdtype)
+        n = int(np.prod(bshape)) if bshape else 1
+        bc = [rng.choice([lo, hi, 0, 1, 1, 2, 255, 256, -1, -129, 65536 + 7, rng.randint(lo, hi)]) for _ in range(n)]
+        bc = [min(hi, max(lo, x)) for x in bc]
+        out.append(dict(kind='getse', dtype=dtype, ndim=ndim, arg='array', bshape=bshape, bc=bc, bdtype=bdtype,
+                        blayout=rng.choice(['C', 'C', 'F', 'strided', 'transposed', 'readonly'])))
+    return out
 
 
 def _eval_block(case):
@@ -166,10 +275,11 @@ def _eval_block(case):
 
 def evaluate(cases):
     out = []
-    singles = [c for c in cases if 'block' not in c]
+    singles = [c for c in cases if 'block' not in c and c.get('kind') != 'getse']
     sres = iter(_eval_single(singles))
+    gres = iter(_eval_getse([c for c in cases if c.get('kind') == 'getse']))
     for c in cases:
-        out.append(_eval_block(c) if 'block' in c else next(sres))
+        out.append(_eval_block(c) if 'block' in c else next(gres) if c.get('kind') == 'getse' else next(sres))
     return out
 
 
@@ -219,16 +329,23 @@ def _rand_elem(rng, dtype, ndim, shape):
 
 
 def _regular_elem(rng, dtype, ndim):
+    """-> bshape, bc, pyarg: pyarg is the Python-level argument (None / int) when the element is to be built by the
+    call itself (erode(A, 8)): the real get_structuring_elem + dispatch against the driver's erodePy/dilatePy"""
     import mahotas as mh
     r = rng.random()
+    pyarg = None
     if r < 0.4:
         A = np.zeros((3,) * ndim, dtype)
-        Bc = mh.get_structuring_elem(A, rng.choice([None, 1, 2, 3][:ndim + 1]) if ndim != 2 else rng.choice([None, 1, 2, 4, 8]))
+        arg = (rng.choice([None, 1, 2, 3][:ndim + 1]) if ndim != 2 else rng.choice([None, 1, 2, 4, 8])) \
+            if rng.random() < 0.8 else rng.choice([0, -1, 4, 6, 8, 5])
+        Bc = mh.get_structuring_elem(A, arg)
+        if rng.random() < 0.6:
+            pyarg = 'none' if arg is None else int(arg)
     elif r < 0.7:
         Bc = np.ones([rng.choice([1, 3, 5]) for _ in range(ndim)], dtype)
     else:
         Bc = mh.disk(rng.choice([1, 2, 3]), ndim).astype(dtype)
-    return list(Bc.shape), [int(x) for x in Bc.ravel().tolist()]
+    return list(Bc.shape), [int(x) for x in Bc.ravel().tolist()], pyarg
 
 
 def cases(rng, tier):
@@ -257,19 +374,41 @@ def cases(rng, tier):
         shape = list(gen.small_shape(rng))
         ndim = len(shape)
         A = gen.rand_int_array(rng, shape, dtype)
+        pyarg = None
         if rng.random() < 0.35:
-            bshape, bc = _regular_elem(rng, dtype, ndim)
+            bshape, bc, pyarg = _regular_elem(rng, dtype, ndim)
         else:
             bshape, bc = _rand_elem(rng, dtype, ndim, shape)
-        out.append(dict(kind=rng.choice(['erode', 'dilate']), dtype=dtype, shape=shape,
-                        data=[int(x) for x in A.ravel().tolist()], bshape=bshape, bc=bc,
-                        layout=rng.choice(gen.LAYOUTS)))
+        c = dict(kind=rng.choice(['erode', 'dilate']), dtype=dtype, shape=shape,
+                 data=[int(x) for x in A.ravel().tolist()], bshape=bshape, bc=bc,
+                 layout=rng.choice(gen.LAYOUTS))
+        if pyarg is not None:
+            c['pyarg'] = pyarg
+        out.append(c)
+    out.extend(_getse_cases(rng, tier))
     return out
 
 
 def shrink(case):
     if 'block' in case:
         return
+    if case.get('kind') == 'getse':
+        if case['arg'] == 'array':
+            if case.get('blayout', 'C') != 'C':
+                yield dict(case, blayout='C')
+            if case.get('bdtype') != case['dtype']:
+                lo, hi = gen.dt_range(case['dtype'])
+                if all(lo <= x <= hi for x in case['bc']):
+                    yield dict(case, bdtype=case['dtype'])
+            for i, v in enumerate(case['bc']):
+                if v != 0:
+                    b = list(case['bc']); b[i] = 0
+                    yield dict(case, bc=b)
+        return
+    if 'pyarg' in case:
+        # the same element passed as an explicit array (bshape/bc hold what get_structuring_elem returned)
+        yield {k: v for k, v in case.items() if k != 'pyarg'}
+        case = dict(case)
     shape, data = case['shape'], case['data']
     A = np.array(data, dtype=object).reshape(shape)
     # drop a slice along an axis
@@ -286,6 +425,8 @@ def shrink(case):
         if v != 0 and lo <= 0:
             d = list(data); d[i] = 0
             yield dict(case, data=d)
+    if 'pyarg' in case:
+        return
     absent = lo if case['dtype'] != 'bool' else 0
     for i, v in enumerate(case['bc']):
         if v != absent:
